@@ -30,7 +30,7 @@ ASSUMPTIONS = ["at most one configured instance matches any generated entry (as 
                "listener policy: rejects iff (eventgroup + counter) % 4 == 3"]
 FLOORS = {"quick": {"messages": 20000, "subscribe_entries": 40000, "acks_expected": 25000, "positive_acks": 8000, "negative_acks": 10000,
                     "nack_no_running_instance": 3000, "nack_listener_rejected": 1500, "stopsubscribe_known_silent": 2000,
-                    "multicast_messages_silent": 2000, "duplicate_entry_messages": 1000, "bursts_in_one_iteration": 2000, "wildcard_instance_matches": 1000,
+                    "multicast_messages_silent": 2000, "duplicate_entry_messages": 1000, "bursts_in_one_iteration": 2000, "wildcard_instance_matches": 1000, "messages_with_more_than_80_subscribe_entries": 200,
                     "mesh_scenarios": 100, "mesh_subscribes_judged": 900, "mesh_positive_acks_expected": 600}}
 # system-level shards: the mesh workload of pv/mesh.py under this property's boundary monitors (reports of other monitors are dropped)
 MESH = {"want": ("ack",), "claim": ("mesh:subscribe-acknowledgement-differs",),
@@ -158,6 +158,8 @@ def run_scenario(ctx, rng, seed, replay):
             sender = rng.choice(SENDERS)
             mc = rng.random() < 0.15
             nent = rng.choice((1, 1, 2, 3, 6))
+            if rng.random() < 0.03:
+                nent = rng.choice((40, 86, 100, 180))  # a client (re)subscribing to everything it knows in one message
             entries, pats = [], []
             dup = rng.random() < 0.12
             for _e in range(nent):
@@ -168,9 +170,11 @@ def run_scenario(ctx, rng, seed, replay):
                 entries = (entries * 3)[:6]
                 pats = (pats * 3)[:6]
                 ctx.count("duplicate_entry_messages")
+            if len(entries) > 80:
+                ctx.count("messages_with_more_than_80_subscribe_entries")
             fl, sid = sc.sess[sender].next("m" if mc else "u")
             data = net.sd_bytes([net.subscribe(e["sid"], e["iid"], e["maj"], e["eg"], e["ttl"], counter=e["counter"], o1=e["o1"], o2=e["o2"])
-                                 for e in entries], sid, reboot=fl)
+                                 for e in entries], sid, reboot=fl, share=nent > 20)
             batch.append(dict(sender=sender, mc=mc, entries=entries, pats=pats, data=data))
         if len(batch) > 1:
             ctx.count("bursts_in_one_iteration")
